@@ -25,18 +25,38 @@ EV_KILLCMD = 13     # non-exclusive `kill` request for the watcher
 EV_SIGNALCMD = 14   # non-exclusive `signal` request (SIGUSR1)
 EV_SETOPT = 16      # set of a reload-class option (args / env / working_dir / max_age by param)
 EV_INCR_BIG = 17    # incr by 12 at once
+EV_KILL0 = 18       # kill request with graceful_timeout=0 (waiting)
 EV_NONE = 15
 
 NAMES = {EV_CHECK: 'check', EV_EXIT: 'exit', EV_XKILL: 'xkill', EV_INCR: 'incr', EV_DECR: 'decr',
          EV_SETNP: 'set_np', EV_RESTART: 'restart', EV_RELOAD: 'reload', EV_RELOAD_SEQ: 'reload_seq',
          EV_RELOAD_TERM: 'reload_term', EV_TIME: 'time', EV_STOP: 'stop', EV_START: 'start',
-         EV_KILLCMD: 'kill_cmd', EV_SIGNALCMD: 'signal_cmd', EV_NONE: 'none', EV_SETOPT: 'set_opt', EV_INCR_BIG: 'incr_12'}
+         EV_KILLCMD: 'kill_cmd', EV_SIGNALCMD: 'signal_cmd', EV_NONE: 'none', EV_SETOPT: 'set_opt', EV_INCR_BIG: 'incr_12', EV_KILL0: 'kill_gt0'}
 
 # gaps -----------------------------------------------------------------------------------------
 GAP_NOW = 0         # immediately, without letting the loop turn
 GAP_TURN = 1        # after one loop turn
 GAP_TURN2 = 2       # after two loop turns
 GAP_QUIET = 3       # after the exclusive slot is free again (quiescence)
+
+
+# configuration variants shared by the scenario harnesses ----------------------------------------
+VARIANTS = {
+    'default': {},
+    'gt0': {'graceful_timeout': 0},
+    'max_age': {'max_age': 1, 'max_age_variance': 0},
+    'send_hup': {'send_hup': True},
+    'respawn_off': {'respawn': False},
+    'stop_children': {'stop_children': True},
+    'warm': {'warmup_delay': 0.3},
+}
+
+
+def variant(name, **base):
+    """watcher keyword arguments for a configuration variant (later keys win)"""
+    kw = dict(base)
+    kw.update(VARIANTS[name or 'default'])
+    return kw
 
 
 class Sched(object):
@@ -103,6 +123,8 @@ class Sched(object):
             req = w.send('kill', name=name, waiting=waiting)
         elif e == EV_SIGNALCMD:
             req = w.send('signal', name=name, signum=10)
+        elif e == EV_KILL0:
+            req = w.send('kill', name=name, waiting=waiting, graceful_timeout=0)
         elif e == EV_INCR_BIG:
             req = w.send('incr', name=name, nb=12, waiting=waiting)
         elif e == EV_SETOPT:
